@@ -199,7 +199,8 @@ def summary(n):
 
 def generate(rng, n):
     cases = []
-    fams = [("sugar", 0.22, lambda: gt.gen_sugar(rng, clash=False)),
+    fams = [("sugar", 0.16, lambda: gt.gen_sugar(rng, clash=False)),
+            ("sugar-lr", 0.06, lambda: gt.gen_sugar_lr(rng)),
             ("sugar-clash", 0.08, lambda: gt.gen_sugar(rng, clash=True)),
             ("meta", 0.16, lambda: gt.gen_meta(rng, assoc_clash=False)),
             ("meta-any", 0.08, lambda: gt.gen_meta(rng)),
@@ -240,6 +241,9 @@ def witness_cases():
         ("F9-greedy", gt.Spec([R("S", [A([As(Ref(("n", "Ta"), ("*!", None))), T("Tb")])])], terms)),
         ("F9-modifiers", gt.Spec([R("S", [A([As(Ref(("n", "Ta"), ("+", ["Tb", "Tc"])))])])], terms)),
         ("dup-terminal", gt.Spec([R("S", [A([T("Ta")])])], terms[:1] + [gt.TermRule("Ta", ("S", "b"))])),
+        ("dup-terminal-5", gt.Spec([R("S", [A([T("Ta")])])], [gt.TermRule("Ta", ("S", c)) for c in "abcde"])),
+        ("self-helper", gt.Spec([R("S", [A([T("A1"), T("B")])]), R("A1", [A([T("Tb"), As(Ref(("n", "A"), ("+", None)))])]),
+                                 R("A", [A([T("Ta")])]), R("B", [A([T("Ta")])])], terms)),
         ("doc-test", gt.Spec([
             R("S", [A([T("A"), As(Ref(("s", "some_term"))), T("B")], [("i", "5")]), A([T("B")], [("k", "nops")])],
               [("i", "15"), ("k", "nopse")]),
@@ -358,9 +362,10 @@ def language_oracle(rep, cases, maxlen, n_parse):
             d = sorted(ref ^ got, key=lambda w: (len(w), w))[:4]
             bad.append((c, "language", f"sentences up to length {maxlen} differ from the documented expansion, e.g. "
                                        f"{[(w, 'documented' if w in ref else 'compiled') for w in d]}"))
-        if len(parse_cases) < n_parse:
-            parse_cases.append(c)
+        parse_cases.append(c)
     # really parse with the LR parser the compiler builds (only conflict-free grammars are driven)
+    parse_cases.sort(key=lambda c: 0 if c.tag == "sugar-lr" else 1)
+    parse_cases = parse_cases[:n_parse]
     if parse_cases:
         groups = []
         for c in parse_cases:
@@ -394,7 +399,7 @@ def language_oracle(rep, cases, maxlen, n_parse):
 # evaluation
 # ---------------------------------------------------------------------------------------------
 
-PLAIN_FAMILIES = ("sugar", "sugar-clash", "meta", "layout")      # specs of these families are valid grammars
+PLAIN_FAMILIES = ("sugar", "sugar-lr", "sugar-clash", "meta", "layout")      # specs of these families are valid grammars
 
 # which finding classes (driver `front class`) explain which oracle failure tags
 EXPLAINS = {
@@ -595,19 +600,11 @@ def check(rep, cases, proofs_ok, tier):
 def replay(rep, path):
     p = json.load(open(path))
     build_harness()
-    c = Case(text=p["grammar"], tag=p.get("tag", "replay"))
-    c.ast = p.get("ast")
-    c.spec = None
-    cases = [c]
-    findings = load_all_findings()
-    mode = run_impl(cases)
-    run_model(cases)
-    real = []
-    if c.impl[0] in ("panic", "hang"):
-        real.append("panic")
-    if c.model is not None and not same(c.impl, c.model):
-        real.append("correspondence")
-    if real:
-        rep.violation(dict(c.describe(), why="replayed case still fails: " + ", ".join(real), kind="replay"),
-                      no_input=("panic" not in real))
-    rep.counters["evaluations"] = 1
+    if p.get("ast"):
+        spec = gt.spec_of_ast(p["ast"])
+        spec.tag = p.get("tag", "replay")
+        c = Case(spec=spec)
+        c.text = p["grammar"]          # the very text of the failing case
+    else:
+        c = Case(text=p["grammar"], tag=p.get("tag", "replay"))
+    check(rep, [c], True, "quick")
